@@ -756,7 +756,12 @@ func (w *World) Step() {
 				w.Exec("INSERT INTO " + name + " VALUES (1, 'x', 2.5), (2, 'y', x'00ff'), (7, NULL, 'z')")
 			}
 		case 3: // generated columns: the VIRTUAL one is not stored, the STORED one is
-			if w.Exec("CREATE TABLE " + name + " (a INT, b INT GENERATED ALWAYS AS (a + 1) VIRTUAL, c TEXT, d INT AS (a * 2) STORED, e TEXT DEFAULT 'e')") {
+			def := "(a INT, b INT GENERATED ALWAYS AS (a + 1) VIRTUAL, c TEXT, d INT AS (a * 2) STORED, e TEXT DEFAULT 'e')"
+			if s.Chance(1, 2, "generated-constant") {
+				// "one AS (1)" looks like a column of type AS(1)
+				def = "(a INTEGER PRIMARY KEY, one AS (1), c TEXT, e INT)"
+			}
+			if w.Exec("CREATE TABLE " + name + " " + def) {
 				w.Exec("INSERT INTO " + name + "(a, c) VALUES (1, 'one'), (5, 'five'), (NULL, NULL)")
 			}
 		case 4: // CREATE TABLE AS: SQLite writes the definition itself
